@@ -225,6 +225,10 @@ def run(report, p):
     for uc in ucs:
         for f, v in prov(p).field_stores(uc, "latest_version"):
             ok = (isinstance(v, ast.Constant) and v.value is None) or (isinstance(v, ast.Call) and norm(v.func).endswith("version.parse"))
+            if not ok and isinstance(v, ast.Name):
+                # a local that holds the parsed version
+                os_ = prov(p).origins(v, f)
+                ok = bool(os_) and all((o[0] == "const" and o[1] is None) or (o[0] == "call" and o[1].endswith("version.parse")) for o in os_)
             r4.instance(f, v, f"latest_version = {norm(v)}")
             r4.check(ok, f, v, "latest_version is assigned something other than None or version.parse(...)", construct=f"latest_version = {norm(v)}")
         nu = p.classes[uc].methods.get("needs_update")
@@ -285,6 +289,71 @@ def run(report, p):
                         r5.check(False, None, x, f"join at import time in {m.name}", construct=f"{m.name}: {norm(x)}")
     vals = list(dumps.values())
     r5.check(len(set(vals)) == 1, None, None, "the result callbacks of the two CLI groups differ", construct="callback bodies: " + " / ".join(sorted(dumps)))
+
+    # ------------------------------------------------------------------ R20.9
+    r9 = report.rule(
+        "R20.9",
+        "the main thread never waits for the checker except in the bounded join: what the result callbacks use of the checker (its properties and methods) acquires no lock, "
+        "condition or semaphore without a timeout that the checker thread holds across a network call (a server that never answers would then block the command for ever), "
+        "and calls no wait()/get()/join() without a timeout",
+        1,
+    )
+    SYNC_CTORS = ("Lock", "RLock", "Condition", "Semaphore", "BoundedSemaphore", "threading.Lock", "threading.RLock", "threading.Condition", "threading.Semaphore", "threading.BoundedSemaphore")
+    for uc in ucs:
+        c = p.classes[uc]
+        lock_fields = set()
+        for attr in ("*",):
+            for mq, m in c.methods.items():
+                for n in walk_no_nested(m.node):
+                    if isinstance(n, ast.Assign) and isinstance(n.value, ast.Call) and norm(n.value.func) in SYNC_CTORS:
+                        for t in n.targets:
+                            if isinstance(t, ast.Attribute) and isinstance(t.value, ast.Name) and t.value.id == "self":
+                                lock_fields.add(t.attr)
+        thread_side = set(p.reachable([c.methods["run"].qual])) if "run" in c.methods else set()
+        # main side: every method of the checker the callbacks can use = all but those only the thread reaches; properties are read, not called
+        main_methods = [m for m in c.methods.values() if m.name not in ("run", "__init__") and (m.is_property or m.qual not in thread_side or any(cq in cbq for cq, _ in p.callers.get(m.qual, [])))]
+
+        def acquisitions(f):
+            """[(field, with-node or call, held statements, has_timeout)]"""
+            out = []
+            for n in walk_no_nested(f.node):
+                if isinstance(n, ast.With):
+                    for it in n.items:
+                        e = it.context_expr
+                        if isinstance(e, ast.Attribute) and e.attr in lock_fields:
+                            out.append((e.attr, n, n.body, False))
+                if isinstance(n, ast.Call) and isinstance(n.func, ast.Attribute) and n.func.attr == "acquire" and isinstance(n.func.value, ast.Attribute) and n.func.value.attr in lock_fields:
+                    timed = any(k.arg == "timeout" for k in n.keywords) or len(n.args) >= 2 or any(k.arg == "blocking" and isinstance(k.value, ast.Constant) and k.value.value is False for k in n.keywords) or (n.args and isinstance(n.args[0], ast.Constant) and n.args[0].value is False)
+                    out.append((n.func.value.attr, n, f.node.body, timed))
+            return out
+
+        held_over_net = {}
+        for fq in thread_side:
+            f = p.funcs.get(fq)
+            if f is None:
+                continue
+            for fld, node, held, _ in acquisitions(f):
+                for st in held:
+                    for x in ast.walk(st):
+                        if isinstance(x, ast.Call):
+                            for t in p.resolve_call(x, f):
+                                if classify(p, x, t, f)[0] == "NET" or t in net_funcs or any(q in net_funcs for q in (p.reachable([t]) if t in p.funcs else [])) or norm(x.func) in ("time.sleep", "sleep"):
+                                    held_over_net.setdefault(fld, (f, node, x))
+        for m in main_methods:
+            r9.instance(m, m.node, f"{m.qual}: main-thread side of the checker")
+            for fld, node, held, timed in acquisitions(m):
+                if timed:
+                    continue
+                if fld in held_over_net:
+                    hf, hnode, hx = held_over_net[fld]
+                    r9.check(False, m, node, f"`{m.name}` (used by the result callback on the main thread) acquires `self.{fld}` without a timeout while the checker thread holds it across `{norm(hx)[:60]}` ({hf.loc(hnode)}): when the update server does not answer, the command never terminates", construct=f"main thread blocks on self.{fld} held across a network call")
+            for n in walk_no_nested(m.node):
+                if isinstance(n, ast.Call) and isinstance(n.func, ast.Attribute) and n.func.attr in ("wait", "get", "join") and isinstance(n.func.value, ast.Attribute) and isinstance(n.func.value.value, ast.Name) and n.func.value.value.id == "self":
+                    ctor = [v for f2, v in prov(p).field_stores(uc, n.func.value.attr)]
+                    is_sync = any(isinstance(v, ast.Call) and norm(v.func).split(".")[-1] in ("Event", "Condition", "Queue", "SimpleQueue", "LifoQueue", "Thread", "Barrier") for v in ctor)
+                    if is_sync and not (n.args or any(k.arg == "timeout" for k in n.keywords)):
+                        r9.check(False, m, n, f"`{m.name}` (main thread) waits on `{norm(n.func.value)}` without a timeout: a server that never answers blocks the command for ever", construct=f"unbounded {n.func.attr}() on the main thread")
+        r9.check(True, c.methods.get("run") or list(c.methods.values())[0], p.classes[uc].node, "")
 
     report.not_decided += [
         "thread interleavings as such (the rules make the main thread's contact with the checker a single bounded join followed by reads)",
